@@ -157,3 +157,9 @@ def pair_cases(ctx, prop=None):
     if prop is None:
         return fam
     return [c for c in fam if c["id"].startswith("pairs/%s/" % prop)]
+
+
+def skel_cases(ctx):
+    """spec/FamSkel.tla: every control skeleton of up to 2 (thorough: 3) constructs, nested and sequenced in every way, with no jump or one break /
+    continue at the end of any one block inside a loop (ids skel/<size>/<jump>/<top|func>/<structure code>)"""
+    return ctx.tlc_family("FamSkel", constants={"Tier": '"%s"' % ctx.tier}, timeout=3000)
